@@ -177,6 +177,30 @@ def base_case(ctx, rng, idx):
         return
     sc = abs(val) + 1
 
+    # ---- one buffer of simulated measurements, overwritten in place
+    # between evaluations (a sampler's proposal buffer)
+    wb = np.array(sim, dtype=float)
+    try:
+        flt.compute_log_likelihood(wb)
+        for rep in range(2):
+            wb *= 1 + 0.05 * rng.random(wb.shape)
+            want = float(np.real(ref_value(cname, obs, wb.astype(complex),
+                                           k)))
+            got = flt.compute_log_likelihood(wb)
+            got_s = flt.compute_sensitivities(wb)[0]
+            ctx.count('reused_buffer_evaluations')
+            if np.isfinite(want) and not (
+                    ctx.close(got, want, rtol=1e-9, scale=abs(want) + 1) and
+                    ctx.close(got_s, want, rtol=1e-9, scale=abs(want) + 1)):
+                ctx.violation('value_vs_documented_estimator',
+                              'reused_buffer:' + cname,
+                              {'chi': got, 's1': got_s, 'reference': want,
+                               'evaluation': rep + 2}, feats)
+                break
+    except Exception as e:      # noqa
+        ctx.violation_exc('evaluation_raises', e,
+                          {'case': describe, 'call': 'reused buffer'}, feats)
+
     # ---- metamorphic: NaN padding
     pad = int(rng.integers(1, 4))
     obs_p = np.concatenate(
